@@ -158,25 +158,33 @@ def rule_c13_r2(model: Model) -> RuleResult:
         nz = Normalizer(model, f, cfg, param_map=_pm(f))
         r.instances += 1
         r.analysed.add(f.qualname)
-        rets = [x for x in cfg.live_nodes() if x.kind == 'return' and x.ast is not None and isinstance(x.ast.value, ast.Call)]
-        if len(rets) != 1:
-            raise AnalysisError(f"{f.loc()}: Condition.{mname} is not a single `return Condition(...)`")
-        f2, call, node2, nz2, subst = _condition_ctor(model, f, rets[0].ast.value, rets[0], nz)
-        lam = call.args[0] if call.args else next((k.value for k in call.keywords if k.arg == 'f'), None)
-        if lam is None:
-            raise AnalysisError(f"{f.loc()}: Condition.{mname}: predicate argument not found")
-        got = _lambda_form(model, f2, lam, node2, nz2)
-        got = (_apply_subst(got[0], subst).replace('builtins.', ''), got[1])
-        r.sample({mname: got})
-        if got == want:
-            r.ok()
-        elif mname in ('all', 'any') and got == (want[0].replace('GEN(', 'LIST('), True):
-            r.fail(f.qualname, f"predicate {got[0]}", f.loc(call),
-                   f"Condition.{mname} evaluates every sub-condition before combining them (a list, not a generator): it no longer short-circuits, "
-                   f"so a later predicate that raises on a value an earlier one already decided turns the result into a failure")
-        else:
-            r.fail(f.qualname, f"predicate {'' if got[1] else 'not '}{got[0]}", f.loc(call),
-                   f"Condition.{mname} does not compute {'not ' if not want[1] else ''}{want[0]}")
+        all_rets = [x for x in cfg.live_nodes() if x.kind == 'return' and x.ast is not None and x.ast.value is not None]
+        rets = [x for x in all_rets if isinstance(x.ast.value, ast.Call)]
+        if not rets:
+            raise AnalysisError(f"{f.loc()}: Condition.{mname} has no `return Condition(...)`")
+        for x in all_rets:
+            if x not in rets:
+                r.fail(f.qualname, f"also returns `{unparse(x.ast.value)}`", f.loc(x.ast),
+                       f"Condition.{mname} hands back an existing condition on some path instead of building the connective: the result is "
+                       f"then whatever that condition computes (e.g. `x <= 0` instead of `not x > 0`, which differ on NaN and on values "
+                       f"whose comparison raises)")
+        for ret in rets:
+            f2, call, node2, nz2, subst = _condition_ctor(model, f, ret.ast.value, ret, nz)
+            lam = call.args[0] if call.args else next((k.value for k in call.keywords if k.arg == 'f'), None)
+            if lam is None:
+                raise AnalysisError(f"{f.loc()}: Condition.{mname}: predicate argument not found")
+            got = _lambda_form(model, f2, lam, node2, nz2)
+            got = (_apply_subst(got[0], subst).replace('builtins.', ''), got[1])
+            r.sample({mname: got})
+            if got == want:
+                r.ok()
+            elif mname in ('all', 'any') and got == (want[0].replace('GEN(', 'LIST('), True):
+                r.fail(f.qualname, f"predicate {got[0]}", f.loc(call),
+                       f"Condition.{mname} evaluates every sub-condition before combining them (a list, not a generator): it no longer short-circuits, "
+                       f"so a later predicate that raises on a value an earlier one already decided turns the result into a failure")
+            else:
+                r.fail(f.qualname, f"predicate {'' if got[1] else 'not '}{got[0]}", f.loc(call),
+                       f"Condition.{mname} does not compute {'not ' if not want[1] else ''}{want[0]}")
     return r
 
 
